@@ -3,7 +3,7 @@
 EXTENDS RSync
 VARIABLES src, dst, del, cwd, phase
 Files == {<<"file", c, m, t>> : c \in 0..2, m \in {420, 384, 493, 292}, t \in {1, 2}}
-Links == {<<"link", k>> : k \in {"rel_inside", "rel_up", "dangling", "abs_inside", "abs_outside"}}
+Links == {<<"link", k>> : k \in {"rel_inside", "rel_up", "dangling", "abs_inside", "abs_inside_dd", "abs_outside"}}
 Leaves == Files \cup Links \cup {ABSENT}
 Dirs == {<<"dir", m, ch>> : m \in {493, 365, 448}, ch \in Leaves}
 Entries == Leaves \cup Dirs
